@@ -1065,9 +1065,11 @@ impl SparqlDatabase {
 
                     // Emit the main triple
                     if subject.starts_with("<<") || object.starts_with("<<") {
-                        let s_id = this.encode_term_star(&subject);
-                        let p_id = this.encode_term_star(&predicate);
-                        let o_id = this.encode_term_star(&object);
+                        // The terms are already cleaned: only quoted triples still need
+                        // structural encoding, a literal value must not be parsed again.
+                        let s_id = this.encode_cleaned_term(&subject);
+                        let p_id = this.encode_cleaned_term(&predicate);
+                        let o_id = this.encode_cleaned_term(&object);
                         let triple = Triple {
                             subject: s_id,
                             predicate: p_id,
